@@ -856,11 +856,6 @@ class ConstructedPayloadDecoderBase(AbstractConstructedPayloadDecoder):
 
                                 asn1Object.setComponentByPosition(idx, component)
 
-            else:
-                inconsistency = asn1Object.isInconsistent
-                if inconsistency:
-                    raise inconsistency
-
         else:
             componentType = asn1Spec.componentType
 
@@ -881,6 +876,11 @@ class ConstructedPayloadDecoderBase(AbstractConstructedPayloadDecoder):
                 )
 
                 idx += 1
+
+        # size and inner-type constraints of the constructed type itself
+        inconsistency = asn1Object.isInconsistent
+        if inconsistency:
+            raise inconsistency
 
         yield asn1Object
 
@@ -1089,11 +1089,6 @@ class ConstructedPayloadDecoderBase(AbstractConstructedPayloadDecoder):
 
                                     asn1Object.setComponentByPosition(idx, component)
 
-                else:
-                    inconsistency = asn1Object.isInconsistent
-                    if inconsistency:
-                        raise inconsistency
-
         else:
             componentType = asn1Spec.componentType
 
@@ -1123,6 +1118,11 @@ class ConstructedPayloadDecoderBase(AbstractConstructedPayloadDecoder):
                 )
 
                 idx += 1
+
+        # size and inner-type constraints of the constructed type itself
+        inconsistency = asn1Object.isInconsistent
+        if inconsistency:
+            raise inconsistency
 
         yield asn1Object
 
